@@ -279,8 +279,13 @@ Theorem beamspread_without_velocity_change : forall v vel r1 rest thetas, v <> 0
   beamspread NumR vel (r1 :: rest) thetas = 1 / sqrt (sum_list NumR (r1 :: rest)).
 Proof. exact beamspread_same_velocity. Qed.
 
-(* the last line np.reciprocal(np.sqrt(d)) in floating point: below the critical angles it is the
-   finite positive value of the theorems ... *)
+(* the last line np.reciprocal(np.sqrt(d)) in floating point (recip_sqrt_outcome; classes Finite x /
+   PlusInf / MinusInf / NaN.  The definition was repaired: it now tests d for nan first -- a nan
+   virtual distance, reachable when a ray meets the same point of a wall twice, used to be read
+   `Finite nan` -- and reads the sign of a zero argument, d = -0.0 giving -inf in numpy.  Neither test
+   fires over the reals, so the three statements below are unchanged; see
+   recip_sqrt_outcome_real_classes and the two instance-generic theorems after them):
+   below the critical angles it is the finite positive value of the theorems ... *)
 Theorem beamspread_float_outcome_regular : forall vel r1 rest thetas,
   all_pos vel -> Forall (fun th => cos th <> 0) thetas -> subcritical vel thetas ->
   0 < r1 -> all_pos rest -> (length rest <= Nat.min (length vel - 1) (length thetas))%nat ->
@@ -298,6 +303,35 @@ Theorem beamspread_beyond_critical_two_legs : forall v0 v1 th r1 r2,
   (r1 * (- g) = r2 -> beamspread_outcome NumR [v0; v1] [r1; r2] [th] = PlusInf) /\
   (r2 < r1 * (- g) -> beamspread_outcome NumR [v0; v1] [r1; r2] [th] = Finite (1 / sqrt (r1 + r2 / g)) /\ 0 < r1 + r2 / g).
 Proof. exact two_leg_beyond_critical_outcome. Qed.
+
+(* over the reals the reading of the last line is the three-class one (d < 0 nan, d = 0 inf,
+   d > 0 the value); the binary64-only answers do not occur: never MinusInf, NaN only for d < 0 *)
+Theorem recip_sqrt_outcome_real_classes : forall d,
+  ((d < 0 -> recip_sqrt_outcome NumR d = NaN) /\
+   (d = 0 -> recip_sqrt_outcome NumR d = PlusInf) /\
+   (0 < d -> recip_sqrt_outcome NumR d = Finite (1 / sqrt d))) /\
+  recip_sqrt_outcome NumR d <> MinusInf /\ (recip_sqrt_outcome NumR d = NaN <-> d < 0).
+Proof. intros d; exact (conj (recip_sqrt_outcome_R d) (recip_sqrt_outcome_R_classes d)). Qed.
+
+(* for EVERY numeric instance (binary64 included), axiom-free: a virtual distance that is not equal to
+   itself (nan) is answered NaN -- never `Finite nan` ... *)
+Theorem beamspread_outcome_of_nan_virtual_distance : forall (T : Type) (N : Num T) vel legs thetas,
+  (let d := virtual_distance N legs (gamma_list N vel thetas) in neqb N d d = false) ->
+  beamspread_outcome N vel legs thetas = NaN.
+Proof. intros T N vel legs thetas; exact (beamspread_outcome_nan N vel legs thetas). Qed.
+
+(* ... and the reading is total, each class being taken under exactly one combination of the tests
+   d == d, d < 0, d == 0, 1 / d < 0 (the last one separates -0.0 from +0.0); in particular Finite x
+   is only answered for an argument equal to itself, not negative and not zero *)
+Theorem recip_sqrt_outcome_classes : forall (T : Type) (N : Num T) d,
+  (recip_sqrt_outcome N d = NaN <-> (neqb N d d = false \/ nltb N d (n0 N) = true)) /\
+  (recip_sqrt_outcome N d = PlusInf <->
+     (neqb N d d = true /\ nltb N d (n0 N) = false /\ neqb N d (n0 N) = true /\ nltb N (ndiv N (n1 N) d) (n0 N) = false)) /\
+  (recip_sqrt_outcome N d = MinusInf <->
+     (neqb N d d = true /\ nltb N d (n0 N) = false /\ neqb N d (n0 N) = true /\ nltb N (ndiv N (n1 N) d) (n0 N) = true)) /\
+  (forall x, recip_sqrt_outcome N d = Finite x <->
+     (neqb N d d = true /\ nltb N d (n0 N) = false /\ neqb N d (n0 N) = false /\ x = ndiv N (n1 N) (nsqrt N d))).
+Proof. intros T N d; exact (recip_sqrt_outcome_cases N d). Qed.
 
 (* the reverse function equals the forward function on the reversed ray whose incidence angles are
    COMPUTED by Snell's law from the forward ones (C07's rev_beamspread_eq with its hypothesis
@@ -419,3 +453,11 @@ Proof.
   - injection Hf as <-. injection Hf' as <-. split; [reflexivity|]. intros Ha. lia.
   - destruct a; discriminate.
 Qed.
+
+(* binary64 executions of the last line for every class of argument, and the ray that meets the same
+   point of a wall twice (nan virtual distance, outcome NaN): run_E7 and run_E10 of
+   Proofs/BeamspreadPathExamples.v; the hypothesis of beamspread_outcome_of_nan_virtual_distance is
+   met by that ray *)
+Example nan_virtual_distance_meets_hypothesis :
+  neqb NumFn vd_E10 vd_E10 = false /\ recip_sqrt_outcome NumF.NumF (PrimFloat.opp PrimFloat.zero) = MinusInf.
+Proof. exact vd_E10_is_nan. Qed.
